@@ -251,6 +251,7 @@ nni_dialer_init(nni_dialer *d, nni_sock *s, nni_sp_tran *tran)
 	}
 
 	if (rv == 0) {
+		NNI_VERIF_DELAY(1, d);
 		nni_mtx_lock(&dialers_lk);
 		rv = nni_id_alloc32(&dialers, &d->d_id, d);
 		nni_mtx_unlock(&dialers_lk);
@@ -381,6 +382,7 @@ nni_dialer_close(nni_dialer *d)
 	d->d_closed = true;
 	nni_id_remove(&dialers, d->d_id);
 	nni_mtx_unlock(&dialers_lk);
+	NNI_VERIF_DELAY(3, d);
 
 	nni_dialer_shutdown(d);
 
